@@ -65,6 +65,8 @@ type Cfg struct {
 	Tree         []hx.Spec
 	Close        CloseSpec
 	ReadAt       time.Duration // the observer looks at the system when it is quiescent at this virtual time
+	Bufsiz       int           // > 0: model value of EventBufsiz for this scenario
+	MapOrder     bool          // map iteration order is an explorer choice
 	APICalls     bool          // issue the public API calls again after shutdown (C12)
 	RaceAPI      bool          // a driver issues Subscribe/Clone/Refilter/List concurrently with everything else (C12)
 	Mode         string
@@ -170,6 +172,7 @@ func (in *Inst) doClose(kind string) {
 func (in *Inst) Run() {
 	c := in.C
 	vrand.Floats = []float64{0.5}
+	hx.Drops = 0
 	in.Srv = fakeapi.New()
 	in.Srv.ListFaults = c.ListFaults
 	in.Srv.WatchFaults = c.WatchFaults
@@ -459,11 +462,17 @@ func Scenario(prop string, c Cfg, oracle func(in *Inst, r *vs.Result) []string) 
 	return runner.Sc{
 		Scenario: explore.Scenario{
 			Name: fmt.Sprintf("%s/%s/%s%d", strings.ToLower(prop), c.Name, c.Mode, c.Bound), Mode: c.Mode, Bound: c.Bound,
-			Cfg: vs.Config{Timers: vs.TimersLazy, MaxSteps: 200000},
+			Cfg: vs.Config{Timers: vs.TimersLazy, MaxSteps: 200000, Bufsiz: c.Bufsiz, MapOrder: c.MapOrder},
 			New: func() explore.Instance {
 				in := &Inst{C: c}
 				return explore.Instance{Run: in.Run, Check: func(r *vs.Result) []string { return oracle(in, r) }, Outcome: in.Outcome,
-					Counters: func() map[string]int64 { return map[string]int64{"executions_where_convergence_premise_held": in.Converged} }}
+					Counters: func() map[string]int64 {
+						d := int64(0)
+						if hx.Drops > 0 {
+							d = 1
+						}
+						return map[string]int64{"executions_where_convergence_premise_held": in.Converged, "executions_with_overflow_drops": d}
+					}}
 			},
 		},
 		Split: true,
